@@ -24,6 +24,7 @@ from typing import (
 )
 
 from zeroconf import (
+    BadTypeInNameException,
     DNSOutgoing,
     DNSPointer,
     DNSQuestion,
@@ -428,15 +429,25 @@ class ZeroconfScanner(BaseScanner):
             zc_type = f"{type_}."
             for record in cache.async_all_by_details(zc_type, _TYPE_PTR, _CLASS_IN):
                 ptr_name = cast(DNSPointer, record).alias
-                service_info = AsyncServiceInfo(zc_type, ptr_name)
+                # An announced name that zeroconf considers invalid only rules out
+                # that very service, not the rest of the scan
+                try:
+                    service_info = AsyncServiceInfo(zc_type, ptr_name)
+                except BadTypeInNameException:
+                    _LOGGER.debug("Ignoring invalid service name: %s", ptr_name)
+                    continue
                 infos.append(service_info)
                 name = _name_without_type(ptr_name, zc_type)
                 device_name = self._device_info_name[type_](name)
-                if device_name is not None and device_name not in device_names:
+                if device_name and device_name not in device_names:
                     device_names.add(device_name)
-                    device_service_info = AsyncDeviceInfoServiceInfo(
-                        DEVICE_INFO_TYPE, f"{device_name}.{DEVICE_INFO_TYPE}"
-                    )
+                    try:
+                        device_service_info = AsyncDeviceInfoServiceInfo(
+                            DEVICE_INFO_TYPE, f"{device_name}.{DEVICE_INFO_TYPE}"
+                        )
+                    except BadTypeInNameException:
+                        _LOGGER.debug("Ignoring invalid device name: %s", device_name)
+                        continue
                     infos.append(device_service_info)
         return infos
 
